@@ -189,7 +189,12 @@ func (g *gen) cond(d int) ex {
 			}
 		case k < 6:
 			op := vlib.Pick(g.rng, []string{"=~", "!~"})
-			return ex{"$s " + op + " " + g.regex(), 2}
+			rhs := g.regex()
+			for g.rng.Chance(30) { // a pattern concatenation as the right operand
+				g.feats["match-concat"] = true
+				rhs += " + " + vlib.Pick(g.rng, []string{"Q", g.regex()})
+			}
+			return ex{"$s " + op + " " + rhs, 2}
 		default:
 			if e, ok := g.bin(vlib.Pick(g.rng, []string{"&&", "||"}), g.cond(d-1), g.cond(d-1)); ok {
 				return e
@@ -263,10 +268,18 @@ func (g *gen) stmts(b *strings.Builder, ind string, d int, inDef bool) {
 			c := g.cond(2)
 			g.exprs = append(g.exprs, c.s)
 			b.WriteString(ind + c.s + " {\n")
-			g.stmts(b, ind+"  ", d-1, inDef)
+			if !g.rng.Chance(12) { // sometimes an empty block
+				g.stmts(b, ind+"  ", d-1, inDef)
+			} else {
+				g.feats["empty-block"] = true
+			}
 			if g.rng.Chance(40) {
 				b.WriteString(ind + "} else {\n")
-				g.stmts(b, ind+"  ", d-1, inDef)
+				if !g.rng.Chance(20) {
+					g.stmts(b, ind+"  ", d-1, inDef)
+				} else {
+					g.feats["empty-else"] = true
+				}
 			}
 			b.WriteString(ind + "}\n")
 		case k == 10 && d > 0:
@@ -346,6 +359,7 @@ func genProgram(rng *vlib.Rand, fl genFlags) (string, []string, []string, map[st
 	}
 	b.WriteString("histogram h buckets " + bk + " by k\n")
 	b.WriteString("const P /(?P<n>\\d+) /\n")
+	b.WriteString("const Q /q+/\n")
 	useDef := rng.Chance(50)
 	if useDef {
 		b.WriteString("def deco {\n  /^y/ {\n")
@@ -378,7 +392,10 @@ func genProgram(rng *vlib.Rand, fl genFlags) (string, []string, []string, map[st
 	for _, st := range []string{"c++", "g[$s] = $n", "f = $x", "t = $s", "tm = $n", "h[$s] = $x"} {
 		g.emit(&b, "  ", st)
 	}
-	b.WriteString("}\n")
+	g.exprs = append(g.exprs, "$s !~ /z/ + Q + /w/")
+	b.WriteString("  $s !~ /z/ + Q + /w/ {\n")
+	g.emit(&b, "    ", "c++")
+	b.WriteString("  }\n}\n")
 	if !strings.Contains(b.String(), "P +") {
 		b.WriteString("/q / + P {\n  c++\n}\n")
 		g.exprs = append(g.exprs, "c++")
@@ -610,7 +627,7 @@ func coqExpr(n ast.Node) (string, bool) {
 		return coqExpr(v.N)
 	case *ast.PatternExpr:
 		if _, ok := v.Expr.(*ast.BinaryExpr); ok {
-			return "", false // pattern concatenation: outside the expression model
+			return coqConcat(v.Expr) // pattern concatenation: a `+` tree over regex literals and const names
 		}
 		return coqExpr(v.Expr)
 	case *ast.PatternLit:
